@@ -59,6 +59,7 @@ theorem PipeBmp_refines_repaired (v : Variant) (hv : v.bmp.eorAnyUpdate = false)
   intro e he
   cases e with
   | connect rk => rfl
+  | disconnect i => rfl
   | msg i m => exact ok_of_consistent v.bmp hv m (hc i m he)
 
 def p24 : Rib.Prefix := ⟨.v4, 24, 655617⟩   -- 10.1.1.0/24
@@ -79,7 +80,8 @@ def exK : Nat → Hdr → Key := fun i h => 100 + 10 * i + h
 -- the hypotheses are satisfiable by it (both for the code as written and with the parser contract)
 example : exH.all (Ev.ok Bmp.asWritten) = true ∧
     exH.all (fun e => match e with | .msg _ m => m.consistent | _ => true) = true ∧
-    trace exK exH = [.upd 3 (ann24 5), .upd 3 (.ok 0 [] []), .upd 5 (ann24 6), .down 3, .downBulk [5]] ∧
+    want exK exH = [.upd 3 (ann24 5), .upd 3 (.ok 0 [] []), .upd 5 (ann24 6), .down 3, .downBulk [5]] ∧
+    trace exK exH = [.upd 3 (ann24 5), .upd 3 (.ok 0 [] []), .upd 5 (ann24 6), .down 3, .downBulk [5], .downBulk [5]] ∧
     (run asWritten exK exH).rib.query p24 = [⟨3, .withdrawn, 5⟩, ⟨5, .withdrawn, 6⟩] := by decide
 
 /-- The refinement as stated, without the guard. -/
@@ -121,93 +123,149 @@ theorem mem_traceFrom (K : Nat → Hdr → Key) (x : Rib.Ev) (H : History) (T : 
         obtain ⟨rfl, rfl⟩ := heq
         exact Or.inr ⟨H1, e, H2, rfl, by simpa [Track.runFrom] using hx⟩
 
-/-- What one message contributes, read off the tracker's session. -/
-theorem mem_step_evs (K : Nat → Hdr → Key) (T : Track) (e : Ev) (x : Rib.Ev) (hx : x ∈ (T.step K e).2) :
-    ∃ i m s, e = .msg i m ∧ T.sess[i]? = some s ∧ s.life = .live ∧
+theorem mem_wantFrom (K : Nat → Hdr → Key) (x : Rib.Ev) (H : History) (T : Track) :
+    x ∈ wantFrom K T H ↔ ∃ H1 e H2, H = H1 ++ e :: H2 ∧ x ∈ (T.runFrom K H1).want K e := by
+  induction H generalizing T with
+  | nil => simp [wantFrom]
+  | cons e0 H ih =>
+    rw [wantFrom, List.mem_append, ih]
+    constructor
+    · rintro (h | ⟨H1, e, H2, rfl, hx⟩)
+      · exact ⟨[], e0, H, rfl, h⟩
+      · exact ⟨e0 :: H1, e, H2, rfl, by simpa [Track.runFrom] using hx⟩
+    · rintro ⟨H1, e, H2, heq, hx⟩
+      cases H1 with
+      | nil =>
+        simp only [List.nil_append, List.cons.injEq] at heq
+        obtain ⟨rfl, rfl⟩ := heq
+        exact Or.inl hx
+      | cons e1 H1 =>
+        simp only [List.cons_append, List.cons.injEq] at heq
+        obtain ⟨rfl, rfl⟩ := heq
+        exact Or.inr ⟨H1, e, H2, rfl, by simpa [Track.runFrom] using hx⟩
+
+/-- What one message on a live session asks of the RIB, read off the tracker's session. -/
+theorem mem_want_msg (K : Nat → Hdr → Key) (T : Track) (i : Nat) (m : Msg) (x : Rib.Ev)
+    (hx : x ∈ T.want K (.msg i m)) :
+    ∃ s, T.sess[i]? = some s ∧ s.life = .live ∧
       ((∃ h t u mui, m = .routeMon h t u ∧ Bmp.lookupUp h s.up = some mui ∧ deliverable t = true ∧ x = .upd mui u) ∨
        (∃ h mui, m = .peerDown h ∧ Bmp.lookupUp h s.up = some mui ∧ x = .down mui) ∨
        (m = .term ∧ s.up ≠ [] ∧ x = .downBulk (s.up.map (·.2)))) := by
-  cases e with
-  | connect rk => simp [Track.step] at hx
-  | msg i m =>
-    simp only [Track.step] at hx
-    cases hg : T.sess[i]? with
-    | none => simp [hg] at hx
-    | some s =>
-      simp only [hg, TSess.step] at hx
-      refine ⟨i, m, s, rfl, hg, ?_⟩
-      cases hl : s.life with
-      | fresh => cases m <;> simp [hl] at hx
-      | dead => simp [hl] at hx
-      | live =>
-        refine ⟨rfl, ?_⟩
-        simp only [hl] at hx
-        cases m with
-        | init => simp at hx
-        | stats _ => simp at hx
-        | mirror _ => simp at hx
-        | peerUp h e c => cases hu : Bmp.lookupUp h s.up <;> simp [hu] at hx
-        | peerDown h =>
-          cases hu : Bmp.lookupUp h s.up with
-          | none => simp [hu] at hx
-          | some mui =>
-            simp only [hu, List.mem_singleton] at hx
-            exact Or.inr (Or.inl ⟨h, mui, rfl, hu, hx⟩)
-        | routeMon h t u =>
-          cases hu : Bmp.lookupUp h s.up with
-          | none => simp [hu] at hx
-          | some mui =>
-            cases hd : deliverable t with
-            | false => simp [hu, hd] at hx
-            | true =>
-              simp only [hu, hd, List.mem_singleton] at hx
-              exact Or.inl ⟨h, t, u, mui, rfl, hu, hd, hx⟩
-        | term =>
-          cases hm : s.up with
-          | nil => simp [hm] at hx
-          | cons a b =>
-            simp only [hm, List.map_cons, List.mem_singleton] at hx
-            exact Or.inr (Or.inr ⟨rfl, by simp, by simpa using hx⟩)
+  simp only [Track.want] at hx
+  cases hg : T.sess[i]? with
+  | none => simp [hg] at hx
+  | some s =>
+    simp only [hg, TSess.step] at hx
+    refine ⟨s, rfl, ?_⟩
+    cases hl : s.life with
+    | fresh => cases m <;> simp [hl] at hx
+    | dead => simp [hl] at hx
+    | live =>
+      refine ⟨rfl, ?_⟩
+      simp only [hl] at hx
+      cases m with
+      | init => simp at hx
+      | stats _ => simp at hx
+      | mirror _ => simp at hx
+      | peerUp h e c => cases hu : Bmp.lookupUp h s.up <;> simp [hu] at hx
+      | peerDown h =>
+        cases hu : Bmp.lookupUp h s.up with
+        | none => simp [hu] at hx
+        | some mui =>
+          simp only [hu, List.mem_singleton] at hx
+          exact Or.inr (Or.inl ⟨h, mui, rfl, hu, hx⟩)
+      | routeMon h t u =>
+        cases hu : Bmp.lookupUp h s.up with
+        | none => simp [hu] at hx
+        | some mui =>
+          cases hd : deliverable t with
+          | false => simp [hu, hd] at hx
+          | true =>
+            simp only [hu, hd, List.mem_singleton] at hx
+            exact Or.inl ⟨h, t, u, mui, rfl, hu, hd, hx⟩
+      | term =>
+        cases hm : s.up with
+        | nil => simp [hm] at hx
+        | cons a b =>
+          simp only [hm, List.map_cons, List.mem_singleton] at hx
+          exact Or.inr (Or.inr ⟨rfl, by simp, by simpa using hx⟩)
+
+/-- … and what a lost connection asks: one withdrawal of the ids of the peers that were up on it. -/
+theorem mem_want_disconnect (K : Nat → Hdr → Key) (T : Track) (i : Nat) (x : Rib.Ev)
+    (hx : x ∈ T.want K (.disconnect i)) :
+    ∃ s, T.sess[i]? = some s ∧ s.up ≠ [] ∧ x = .downBulk (s.up.map (·.2)) := by
+  simp only [Track.want] at hx
+  cases hg : T.sess[i]? with
+  | none => simp [hg] at hx
+  | some s =>
+    simp only [hg] at hx
+    have hx' : x ∈ s.endEvs := by
+      cases hl : s.life <;> simp only [hl] at hx
+      · exact hx
+      · exact hx
+      · simp at hx
+    simp only [TSess.endEvs] at hx'
+    cases hm : s.up with
+    | nil => simp [hm] at hx'
+    | cons a b =>
+      simp only [hm, List.map_cons, List.mem_singleton] at hx'
+      exact ⟨_, rfl, by simp [hm], by simpa [hm] using hx'⟩
 
 /-- **Route data is taken only from peers that are up, under their own ingress id**: every UPDATE in
-    the RIB history of a BMP history is the content of a Route Monitoring message that parsed and whose
+    the wanted RIB history of a BMP history is the content of a Route Monitoring message that parsed and whose
     header was up (with that id) on a live session at that point of the history. -/
-theorem mem_trace_upd (K : Nat → Hdr → Key) (H : History) (mui : Mui) (u : Rib.Upd)
-    (hx : Rib.Ev.upd mui u ∈ trace K H) :
+theorem mem_want_upd (K : Nat → Hdr → Key) (H : History) (mui : Mui) (u : Rib.Upd)
+    (hx : Rib.Ev.upd mui u ∈ want K H) :
     ∃ H1 i h t H2 s, H = H1 ++ .msg i (.routeMon h t u) :: H2 ∧ deliverable t = true ∧
       (Track.init.runFrom K H1).sess[i]? = some s ∧ s.life = .live ∧ Bmp.lookupUp h s.up = some mui := by
-  obtain ⟨H1, e, H2, rfl, hx'⟩ := (mem_traceFrom K _ H _).mp hx
-  obtain ⟨i, m, s, rfl, hs, hl, h1 | h1 | h1⟩ := mem_step_evs K _ e _ hx'
-  · obtain ⟨h, t, u', mui', rfl, hu, hd, heq⟩ := h1
-    cases heq
-    exact ⟨H1, i, h, t, H2, s, rfl, hd, hs, hl, hu⟩
-  · obtain ⟨h, mui', _, _, heq⟩ := h1; cases heq
-  · obtain ⟨_, _, heq⟩ := h1; cases heq
+  obtain ⟨H1, e, H2, rfl, hx'⟩ := (mem_wantFrom K _ H _).mp hx
+  cases e with
+  | connect rk => simp [Track.want] at hx'
+  | disconnect i => obtain ⟨s, _, _, heq⟩ := mem_want_disconnect K _ i _ hx'; cases heq
+  | msg i m =>
+    obtain ⟨s, hs, hl, h1 | h1 | h1⟩ := mem_want_msg K _ i m _ hx'
+    · obtain ⟨h, t, u', mui', rfl, hu, hd, heq⟩ := h1
+      cases heq
+      exact ⟨H1, i, h, t, H2, s, rfl, hd, hs, hl, hu⟩
+    · obtain ⟨h, mui', _, _, heq⟩ := h1; cases heq
+    · obtain ⟨_, _, heq⟩ := h1; cases heq
 
-/-- A session-level withdrawal in the RIB history is a Peer Down of a header that was up with that id … -/
-theorem mem_trace_down (K : Nat → Hdr → Key) (H : History) (mui : Mui) (hx : Rib.Ev.down mui ∈ trace K H) :
+/-- A single-id withdrawal in the wanted history is a Peer Down of a header that was up with that id. -/
+theorem mem_want_down (K : Nat → Hdr → Key) (H : History) (mui : Mui) (hx : Rib.Ev.down mui ∈ want K H) :
     ∃ H1 i h H2 s, H = H1 ++ .msg i (.peerDown h) :: H2 ∧
       (Track.init.runFrom K H1).sess[i]? = some s ∧ s.life = .live ∧ Bmp.lookupUp h s.up = some mui := by
-  obtain ⟨H1, e, H2, rfl, hx'⟩ := (mem_traceFrom K _ H _).mp hx
-  obtain ⟨i, m, s, rfl, hs, hl, h1 | h1 | h1⟩ := mem_step_evs K _ e _ hx'
-  · obtain ⟨h, t, u', mui', _, _, _, heq⟩ := h1; cases heq
-  · obtain ⟨h, mui', rfl, hu, heq⟩ := h1
-    cases heq
-    exact ⟨H1, i, h, H2, s, rfl, hs, hl, hu⟩
-  · obtain ⟨_, _, heq⟩ := h1; cases heq
+  obtain ⟨H1, e, H2, rfl, hx'⟩ := (mem_wantFrom K _ H _).mp hx
+  cases e with
+  | connect rk => simp [Track.want] at hx'
+  | disconnect i => obtain ⟨s, _, _, heq⟩ := mem_want_disconnect K _ i _ hx'; cases heq
+  | msg i m =>
+    obtain ⟨s, hs, hl, h1 | h1 | h1⟩ := mem_want_msg K _ i m _ hx'
+    · obtain ⟨h, t, u', mui', _, _, _, heq⟩ := h1; cases heq
+    · obtain ⟨h, mui', rfl, hu, heq⟩ := h1
+      cases heq
+      exact ⟨H1, i, h, H2, s, rfl, hs, hl, hu⟩
+    · obtain ⟨_, _, heq⟩ := h1; cases heq
 
-/-- … or a Termination, naming exactly the ids of the headers that were up on that session. -/
-theorem mem_trace_downBulk (K : Nat → Hdr → Key) (H : History) (ids : List Mui)
-    (hx : Rib.Ev.downBulk ids ∈ trace K H) :
-    ∃ H1 i H2 s, H = H1 ++ .msg i .term :: H2 ∧
-      (Track.init.runFrom K H1).sess[i]? = some s ∧ s.life = .live ∧ ids = s.up.map (·.2) := by
-  obtain ⟨H1, e, H2, rfl, hx'⟩ := (mem_traceFrom K _ H _).mp hx
-  obtain ⟨i, m, s, rfl, hs, hl, h1 | h1 | h1⟩ := mem_step_evs K _ e _ hx'
-  · obtain ⟨h, t, u', mui', _, _, _, heq⟩ := h1; cases heq
-  · obtain ⟨h, mui', _, _, heq⟩ := h1; cases heq
-  · obtain ⟨rfl, _, heq⟩ := h1
+/-- A bulk withdrawal in the wanted history is a Termination or a lost connection, naming exactly the ids of
+    the headers that were up on that session. -/
+theorem mem_want_downBulk (K : Nat → Hdr → Key) (H : History) (ids : List Mui)
+    (hx : Rib.Ev.downBulk ids ∈ want K H) :
+    ∃ H1 i H2 s, (H = H1 ++ .msg i .term :: H2 ∨ H = H1 ++ .disconnect i :: H2) ∧
+      (Track.init.runFrom K H1).sess[i]? = some s ∧ ids = s.up.map (·.2) := by
+  obtain ⟨H1, e, H2, rfl, hx'⟩ := (mem_wantFrom K _ H _).mp hx
+  cases e with
+  | connect rk => simp [Track.want] at hx'
+  | disconnect i =>
+    obtain ⟨s, hs, _, heq⟩ := mem_want_disconnect K _ i _ hx'
     cases heq
-    exact ⟨H1, i, H2, s, rfl, hs, hl, rfl⟩
+    exact ⟨H1, i, H2, s, Or.inr rfl, hs, rfl⟩
+  | msg i m =>
+    obtain ⟨s, hs, hl, h1 | h1 | h1⟩ := mem_want_msg K _ i m _ hx'
+    · obtain ⟨h, t, u', mui', _, _, _, heq⟩ := h1; cases heq
+    · obtain ⟨h, mui', _, _, heq⟩ := h1; cases heq
+    · obtain ⟨rfl, _, heq⟩ := h1
+      cases heq
+      exact ⟨H1, i, H2, s, Or.inl rfl, hs, rfl⟩
 
 /-! ## (a) C01 over BMP histories -/
 
@@ -318,30 +376,78 @@ theorem PipeBmp_C02_peerDown (v : Variant) (K : Nat → Hdr → Key) (w : World)
   · rw [hw]
   · rw [hw]
 
-/-- **Termination, every phase.** Exactly the routes of the ids of the session's up peers are withdrawn
-    (attributes kept), every key of any other id keeps record and marker; the session ends; other
+/-- **Termination, every phase — what the code does.** The routes of the ids of the session's up peers and of
+    every id registered under the connection's router id (`ids_for_parent`, the handler's epilogue) are
+    withdrawn, attributes kept; every key of any other id keeps record and marker; the session ends; other
     sessions and the register are untouched. -/
 theorem PipeBmp_C02_term (v : Variant) (K : Nat → Hdr → Key) (w : World) (i : Nat) (s : Sess)
     (hs : w.sess[i]? = some s) (hl : s.phase = .dumping ∨ s.phase = .updating) :
     let w' := w.step v K (.msg i .term)
-    (∀ mc q m, m ∉ s.peers.map (·.mui) → w'.rib.abs mc q m = w.rib.abs mc q m) ∧
-    (∀ mc q m, m ∈ s.peers.map (·.mui) → w'.rib.entry mc q m = (w.rib.entry mc q m).map Rib.setWithdrawn) ∧
+    let ids := s.peers.map (·.mui) ++ idsForParent (w.rids.getD i 0) w.par
+    (∀ mc q m, m ∉ ids → w'.rib.abs mc q m = w.rib.abs mc q m) ∧
+    (∀ mc q m, m ∈ ids → w'.rib.entry mc q m = (w.rib.entry mc q m).map Rib.setWithdrawn) ∧
     w'.sess[i]? = some ⟨.terminated, []⟩ ∧ (∀ j, j ≠ i → w'.sess[j]? = w.sess[j]?) ∧
-    w'.reg = w.reg ∧ w'.next = w.next := by
-  intro w'
+    w'.reg = w.reg ∧ w'.next = w.next ∧ w'.par = w.par := by
+  intro w' ids
   have hw : w' = _ := World.step_term v K w i s hs hl
   have hlt : i < w.sess.length := (List.getElem?_eq_some_iff.mp hs).1
-  refine ⟨?_, ?_, ?_, ?_, ?_, ?_⟩
+  refine ⟨?_, ?_, ?_, ?_, ?_, ?_, ?_⟩
   · intro mc q m hm
+    simp only [ids, List.mem_append, not_or] at hm
     rw [hw]
-    simp only [Rib.Rib.abs_withdrawBulk, hm, if_false]
+    show Rib.Rib.abs (List.foldl _ _ _) mc q m = _
+    rw [Rib.Rib.abs_withdrawBulk, if_neg hm.2, Rib.Rib.abs_withdrawBulk, if_neg hm.1]
   · intro mc q m hm
+    simp only [ids, List.mem_append] at hm
     rw [hw, Rib.Rib.entry_eq_abs, Rib.Rib.entry_eq_abs]
-    simp only [Rib.Rib.abs_withdrawBulk, hm, if_true, Rib.entry_specDown]
+    show (Rib.Rib.abs (List.foldl _ _ _) mc q m).entry = _
+    rw [Rib.Rib.abs_withdrawBulk, Rib.Rib.abs_withdrawBulk]
+    by_cases h1 : m ∈ s.peers.map (·.mui) <;> by_cases h2 : m ∈ idsForParent (w.rids.getD i 0) w.par
+    · rw [if_pos h2, if_pos h1, Rib.entry_specDown, Rib.entry_specDown, Option.map_map, setWithdrawn_comp]
+    · rw [if_neg h2, if_pos h1, Rib.entry_specDown]
+    · rw [if_pos h2, if_neg h1, Rib.entry_specDown]
+    · exact absurd hm (fun h => h.elim h1 h2)
   · rw [hw]; simp [hlt]
   · intro j hj; rw [hw]; exact getElem?_set_other _ _ _ _ hj
   · rw [hw]
   · rw [hw]
+  · rw [hw]
+
+/-- **The connection is lost, every phase in which it is still read — what the code does.** Exactly the routes
+    of the ids registered under the connection's router id (`ids_for_parent`) are withdrawn, attributes kept;
+    every key of any other id keeps record and marker; the connection is closed; other sessions, the register
+    and the parent table are untouched. -/
+theorem PipeBmp_C02_disconnect (v : Variant) (K : Nat → Hdr → Key) (w : World) (i : Nat) (s : Sess)
+    (hs : w.sess[i]? = some s) (hl : s.phase ≠ .terminated) :
+    let w' := w.step v K (.disconnect i)
+    let ids := idsForParent (w.rids.getD i 0) w.par
+    (∀ mc q m, m ∉ ids → w'.rib.abs mc q m = w.rib.abs mc q m) ∧
+    (∀ mc q m, m ∈ ids → w'.rib.entry mc q m = (w.rib.entry mc q m).map Rib.setWithdrawn) ∧
+    w'.sess[i]? = some ⟨.terminated, []⟩ ∧ (∀ j, j ≠ i → w'.sess[j]? = w.sess[j]?) ∧
+    w'.reg = w.reg ∧ w'.next = w.next ∧ w'.par = w.par := by
+  intro w' ids
+  have hw : w' = _ := World.step_disconnect v K w i s hs hl
+  have hlt : i < w.sess.length := (List.getElem?_eq_some_iff.mp hs).1
+  refine ⟨?_, ?_, ?_, ?_, ?_, ?_, ?_⟩
+  · intro mc q m hm
+    rw [hw]
+    show Rib.Rib.abs (List.foldl _ _ _) mc q m = _
+    rw [Rib.Rib.abs_withdrawBulk, if_neg hm]
+  · intro mc q m hm
+    rw [hw, Rib.Rib.entry_eq_abs, Rib.Rib.entry_eq_abs]
+    show (Rib.Rib.abs (List.foldl _ _ _) mc q m).entry = _
+    rw [Rib.Rib.abs_withdrawBulk, if_pos hm, Rib.entry_specDown]
+  · rw [hw]; simp [hlt]
+  · intro j hj; rw [hw]; exact getElem?_set_other _ _ _ _ hj
+  · rw [hw]
+  · rw [hw]
+  · rw [hw]
+
+/-- A closed connection is never read again: messages and a second loss change nothing. -/
+theorem PipeBmp_C02_closed (v : Variant) (K : Nat → Hdr → Key) (w : World) (i : Nat) (s : Sess)
+    (hs : w.sess[i]? = some s) (hl : s.phase = .terminated) :
+    w.step v K (.disconnect i) = w := by
+  simp [World.step, hs, hl, lifeOf]
 
 /-- A Peer Down for a header that is not up — in any phase — changes nothing at all. -/
 theorem PipeBmp_C02_reject (v : Variant) (K : Nat → Hdr → Key) (w : World) (i : Nat) (h : Hdr) (s : Sess)
@@ -516,16 +622,17 @@ example : (run ⟨Bmp.repaired, { overlapFix := true, perRecordWithdraw := true 
     exactly as before the outage but withdrawn — through Peer Ups, other peers' traffic, further flaps. -/
 theorem PipeBmp_C03_stale (v : Variant) (K : Nat → Hdr → Key) (H1 H2 : History) (e : Ev) (d : Rib.Ev)
     (mc : Bool) (p : Rib.Prefix) (m : Mui)
-    (hok : (H1 ++ e :: H2).all (Ev.ok v.bmp) = true)
-    (he : ((Track.init.runFrom K H1).step K e).2 = [d]) (hd : d.downs m = true)
+    (hok : (H1 ++ e :: H2).all (Ev.ok v.bmp) = true) (ds : List Rib.Ev)
+    (he : ((Track.init.runFrom K H1).step K e).2 = d :: ds) (hd : d.downs m = true)
+    (hds : ds.all (fun x => !(x.announces mc p m)) = true)
     (hna : (traceFrom K ((Track.init.runFrom K H1).step K e).1 H2).all (fun x => !(x.announces mc p m)) = true) :
     (run v K (H1 ++ e :: H2)).rib.entry mc p m = ((run v K H1).rib.entry mc p m).map Rib.setWithdrawn := by
   have hok1 : H1.all (Ev.ok v.bmp) = true := by
     rw [List.all_append, Bool.and_eq_true] at hok; exact hok.1
-  rw [(PipeBmp_refines v K _ hok).2, (PipeBmp_refines v K H1 hok1).2, trace_split, he]
-  exact Rib.C03_stale v.rib (trace K H1) _ d mc p m hd hna
+  rw [(PipeBmp_refines v K _ hok).2, (PipeBmp_refines v K H1 hok1).2, trace_split, he, List.cons_append]
+  exact Rib.C03_stale v.rib (trace K H1) _ d mc p m hd (by rw [List.all_append, hds, hna]; rfl)
 
-/-- The two instances of `he` above. -/
+/-- The three instances of `he` above (Peer Down, Termination, lost connection). -/
 theorem step_evs_peerDown (K : Nat → Hdr → Key) (T : Track) (i : Nat) (h : Hdr) (s : TSess) (m : Mui)
     (hs : T.sess[i]? = some s) (hl : s.life = .live) (hu : Bmp.lookupUp h s.up = some m) :
     (T.step K (.msg i (.peerDown h))).2 = [.down m] := by
@@ -533,8 +640,13 @@ theorem step_evs_peerDown (K : Nat → Hdr → Key) (T : Track) (i : Nat) (h : H
 
 theorem step_evs_term (K : Nat → Hdr → Key) (T : Track) (i : Nat) (s : TSess)
     (hs : T.sess[i]? = some s) (hl : s.life = .live) (hne : s.up ≠ []) :
-    (T.step K (.msg i .term)).2 = [.downBulk (s.up.map (·.2))] := by
+    (T.step K (.msg i .term)).2 = [.downBulk (s.up.map (·.2)), .downBulk (idsForParent (T.rids.getD i 0) T.par)] := by
   rw [Track.step_term K T i s hs hl hne]
+
+theorem step_evs_disconnect (K : Nat → Hdr → Key) (T : Track) (i : Nat) (s : TSess)
+    (hs : T.sess[i]? = some s) (hl : s.life ≠ .dead) :
+    (T.step K (.disconnect i)).2 = [.downBulk (idsForParent (T.rids.getD i 0) T.par)] := by
+  rw [Track.step_disconnect K T i s hs hl]
 
 -- peer 0 of router 0 announced p24 (attributes 5), went down, came back and announced something else:
 example : let H := [Ev.connect 0, .msg 0 .init, .msg 0 (.peerUp 0 false true), .msg 0 (.routeMon 0 tok1 (ann24 5)),
